@@ -277,7 +277,7 @@ class Generator:
             else:
                 raise ValueError(e.kind)
             items.append(it)
-        mp_names = {it.key.split('::')[-1] for it in items if it.kind == 'fn' and 'mp' in it.entry.opts}
+        mp_names = {(it.header_tokens[it.header_tokens.index('fn') + 1] if 'ext_trait' in it.entry.opts and it.header_tokens else it.key.split('::')[-1]) for it in items if it.kind == 'fn' and 'mp' in it.entry.opts}
         extra = []
         for it in items:
             if it.kind == 'fn' and 'mp' in it.entry.opts and it.out_tokens is not None:
@@ -346,7 +346,86 @@ class Generator:
         if 'rename' in e.opts:
             mp = dict(kv.split(':') for kv in e.opts['rename'].split(','))
             both(R.rename_idents, mp, log)
+        if 'ext_trait' in e.opts and e.kind == 'fn':
+            sig, body, impl = self._ext_trait(sig, body, impl, e.opts.get('extcall', ''), log)
         return sig, body, impl, modpath
+
+    @staticmethod
+    def ext_trait_name(impl):
+        """`impl <..> num_traits :: Pow < ExpType > for BUint < N >` -> 'Pow' (last path segment, no generics)"""
+        t = impl.split(' ')
+        head = t[:t.index('for')]
+        d = 0
+        name = None
+        for i, x in enumerate(head[1:], 1):
+            if x == '<':
+                d += 1
+            elif x == '>':
+                d -= 1
+            elif d == 0 and re.match(r'[A-Za-z_]\w*$', x) and x != 'impl':
+                name = x
+        return name
+
+    def _ext_trait(self, sig, body, impl, extcall, log):
+        """`[ext_trait]`: a method of an impl of an EXTERNAL trait (num_traits / num_integer are not available to
+        single-file Verus) is emitted as an inherent method `<Trait>__<method>` of the Self type:
+          * impl header `impl<G> Trait<..> for T`  ->  `impl<G> T`
+          * the fn name `m` in the signature      ->  `Trait__m`
+          * `[extcall=m:New,recv.m:New2,Trait::m:New3]`: a call token `m` that is preceded by `.` or `::` and followed by
+            `(` (for the `recv.m` form additionally preceded by the token `recv`) is renamed; the form `Trait::m`
+            rewrites the path call `Trait :: m (` to `Self :: New3 (`.  Used for calls that rustc resolves to
+            another method of an external trait (e.g. `self.div_floor(&g)` -> `self.Integer__div_floor(&g)`).
+        Nothing else changes; calls that resolve to inherent methods keep their text."""
+        if impl is None or 'for' not in impl.split(' '):
+            raise R.Unsupported('ext_trait on a fn that is not in a trait impl')
+        tr = self.ext_trait_name(impl)
+        t = impl.split(' ')
+        # generics end
+        i = 1
+        if t[i] == '<':
+            d = 0
+            while True:
+                if t[i] == '<':
+                    d += 1
+                elif t[i] == '>':
+                    d -= 1
+                    if d == 0:
+                        break
+                i += 1
+            i += 1
+        impl2 = ' '.join(t[:i] + t[t.index('for') + 1:])
+        sig = list(sig)
+        fi = sig.index('fn')
+        sig[fi + 1] = tr + '__' + sig[fi + 1]
+        log['R17'] = log.get('R17', 0) + 1
+        if extcall:
+            pats = {}
+            for kv in extcall.split(','):
+                k, v = kv.rsplit(':', 1)
+                if '::' in k:
+                    pats[('::',) + tuple(k.split('::'))] = v
+                else:
+                    pats[tuple(k.split('.'))] = v
+            out = []
+            n = len(body)
+            for j, x in enumerate(body):
+                if j > 1 and j + 1 < n and body[j + 1] == '(' and body[j - 1] == '::' and ('::', body[j - 2], x) in pats:
+                    # `Trait :: m (`  ->  `Self :: New (`   (option form `Trait::m:New`)
+                    out[-2:] = ['Self', '::', pats[('::', body[j - 2], x)]]
+                    log['R17c'] = log.get('R17c', 0) + 1
+                    continue
+                if j > 0 and j + 1 < n and body[j + 1] == '(' and body[j - 1] in ('.', '::'):
+                    if j > 1 and body[j - 1] == '.' and (body[j - 2], x) in pats:
+                        out.append(pats[(body[j - 2], x)])
+                        log['R17c'] = log.get('R17c', 0) + 1
+                        continue
+                    if (x,) in pats:
+                        out.append(pats[(x,)])
+                        log['R17c'] = log.get('R17c', 0) + 1
+                        continue
+                out.append(x)
+            body = out
+        return sig, body, impl2
 
     def _build_code_item(self, it, text):
         sig, body, impl, modpath = self._extract(it)
